@@ -652,6 +652,12 @@ impl Store {
         batch.insert(&self.idx_context, idx_context_key_from_frame(frame), b"");
         batch.commit()?;
         self.keyspace.persist(fjall::PersistMode::SyncAll)?;
+
+        // A context registration that arrives by import is usable at once, exactly as it
+        // would be after the next restart (Store::new reloads these from the zero context)
+        if frame.topic == "xs.context" && frame.context_id == ZERO_CONTEXT {
+            self.contexts.write().unwrap().insert(frame.id);
+        }
         Ok(())
     }
 
